@@ -99,6 +99,21 @@ Theorem C11_intern_lookup_sound : forall ss later o s,
   lookup (intern_all it later) o s = lookup it o s.
 Proof. exact intern_lookup_sound. Qed.
 
+(* `super[e]` / `e in super` (State::SuperIndex after repo commit db09b8e): with or without a
+   super object the answer is the reference answer and does not change as the interner grows;
+   before that commit it did (witness: no super object, the string "zq") *)
+Theorem C11_super_lookup_sound : forall ss later sup s,
+  let it := intern_all [] ss in
+  (forall o, sup = Some o -> names_interned it o) ->
+  super_lookup it sup s = super_lookup_ref it sup s /\
+  super_lookup (intern_all it later) sup s = super_lookup it sup s.
+Proof. exact super_lookup_sound. Qed.
+
+Theorem C11_super_lookup_old_refuted :
+  super_lookup_old (intern_all [] []) None [122; 113] = SUnknownField /\
+  super_lookup_old (intern_all (intern_all [] []) [[122; 113]]) None [122; 113] = SNoSuper.
+Proof. exact super_lookup_old_history_dependent. Qed.
+
 (* non-vacuity of intern_lookup_sound: an object with two interned names, a probe that is
    interned later *)
 Example C11_nonvacuous :
@@ -122,4 +137,6 @@ Print Assumptions C11_memo_transparent.
 Print Assumptions C11_restored_nonvacuous.
 Print Assumptions C11_assert_order_example.
 Print Assumptions C11_intern_lookup_sound.
+Print Assumptions C11_super_lookup_sound.
+Print Assumptions C11_super_lookup_old_refuted.
 Print Assumptions C11_nonvacuous.
